@@ -206,7 +206,7 @@ impl Prop for C01 {
     }
 
     fn runs(tier: Tier) -> u64 {
-        tier.pick(16_000, 1_500_000)
+        tier.pick(40_000, 3_000_000)
     }
 
     fn panics_are_violations() -> bool {
